@@ -36,6 +36,21 @@ fn diff(exp: &BTreeMap<String, ReplicatedValue>, got: &BTreeMap<String, Replicat
     None
 }
 
+/// Projection for values too large to go through serde_json: stamps, expiry, tombstones, and every payload as (length, hash).
+fn proj_big(v: &ReplicatedValue) -> String {
+    let reg = |l: &redis_sim::replication::lattice::LwwRegister<redis_sim::redis::SDS>| format!("{:?}@({},{}){}", l.value.as_ref().map(|s| (s.as_bytes().len(), fnv(7, s.as_bytes()))), l.timestamp.time, l.timestamp.replica_id.0, if l.tombstone { "T" } else { "" });
+    let body = if let Some(l) = v.lww() { reg(l) } else if let Some(h) = v.get_hash() { let m: BTreeMap<&String, String> = h.iter().map(|(f, l)| (f, reg(l))).collect(); format!("{:?}", m) } else { proj_s(v) };
+    format!("{} {} outer@({},{}) exp={:?}", v.crdt_type(), body, v.timestamp.time, v.timestamp.replica_id.0, v.expiry_ms)
+}
+fn diff_big(exp: &BTreeMap<String, ReplicatedValue>, got: &BTreeMap<String, ReplicatedValue>) -> Option<(String, String, String)> {
+    let keys: std::collections::BTreeSet<&String> = exp.keys().chain(got.keys()).collect();
+    for k in keys {
+        let (e, g) = (exp.get(k).map(proj_big), got.get(k).map(proj_big));
+        if e != g { return Some((k.clone(), e.unwrap_or_else(|| "<absent>".into()), g.unwrap_or_else(|| "<absent>".into()))); }
+    }
+    None
+}
+
 pub fn repl_config(replica: u64) -> ReplicationConfig {
     ReplicationConfig { enabled: true, replica_id: replica, consistency_level: ConsistencyLevel::Eventual, gossip_interval_ms: 100, peers: vec![], replication_factor: 3, partitioned_mode: false, selective_gossip: false, virtual_nodes_per_physical: 50 }
 }
@@ -93,6 +108,85 @@ impl C11 {
         rep.sample = Some(json!({"mode": "long history", "updates_of_one_key": n, "updates_per_segment": per_seg}));
         rep
     }
+
+    /// One very large value (a string may be up to 512 MB) among small ones: in a segment, in a checkpoint and in the
+    /// WAL with small entries behind it in the same file. Whatever was persisted must come back - a reader-side "sanity
+    /// bound" on a length field that the writer does not share silently ends recovery at the large record.
+    fn run_large_value(&self, src: &mut Src, tier: Tier) -> RunReport {
+        use redis_sim::redis::SDS;
+        use redis_sim::replication::lattice::ReplicaId;
+        use redis_sim::replication::state::ShardReplicaState;
+        let mut rep = RunReport::default();
+        rep.probe("large_value_persisted");
+        let sizes: &[usize] = match tier { Tier::Quick => &[1_200_000, 17_000_000, 34_000_000], Tier::Thorough => &[1_200_000, 17_000_000, 34_000_000, 70_000_000, 135_000_000] };
+        let size = *src.pick(sizes) + src.below(1000) as usize;
+        if size > 16_000_000 { rep.probe("large_value_over_16mib"); }
+        let as_hash = src.chance(1, 4);
+        let with_cp = src.chance(1, 2);
+        let seed = src.u64_any();
+        let viol: Option<(String, String)> = rt::block_on(seed, async move {
+            let mut w = ShardReplicaState::new(ReplicaId::new(1), ConsistencyLevel::Eventual);
+            let big = SDS::new(vec![b'v'; size]);
+            let mut deltas: Vec<ReplicationDelta> = Vec::new();
+            deltas.push(w.record_write("a".to_string(), SDS::from_str("1"), None));
+            if as_hash { deltas.push(w.record_hash_write("big".to_string(), vec![("f".to_string(), big), ("g".to_string(), SDS::from_str("small"))])); } else { deltas.push(w.record_write("big".to_string(), big, None)); }
+            deltas.push(w.record_write("b".to_string(), SDS::from_str("2"), None));
+            deltas.push(w.record_write("a".to_string(), SDS::from_str("3"), None));
+            let expected = fold_impl(None, deltas.iter());
+            // object store: everything flushed in one segment (and, half of the time, a checkpoint over it)
+            let store = SimStore::new(); store.set_record(false);
+            let clock = SimClock::new(1_700_000_000_000);
+            let wcfg = WriteBufferConfig { flush_interval: Duration::from_millis(50), max_size_bytes: 1 << 30, max_deltas: 100_000, backpressure_threshold_bytes: 1 << 31, compression_enabled: false };
+            let mut p = match StreamingPersistence::with_clock(Arc::new(store.clone()), PREFIX.to_string(), 1, wcfg, clock.clone()).await { Ok(p) => p, Err(e) => return Some(("C11/setup".to_string(), e.to_string())) };
+            for d in &deltas { if let Err(e) = p.push(d.clone()) { return Some(("C11/large-value/push-refused".to_string(), format!("a {}-byte value was refused by the write buffer: {}", size, e))); } }
+            if let Err(e) = p.flush().await { return Some(("C11/large-value/flush-error".to_string(), format!("a {}-byte value could not be flushed: {}", size, e))); }
+            if with_cp {
+                let state: HashMap<String, ReplicatedValue> = expected.clone().into_iter().collect();
+                let mm = ManifestManager::new(store.clone(), PREFIX);
+                let mut manifest = match mm.load().await { Ok(m) => m, Err(e) => return Some(("C11/setup-manifest".to_string(), e.to_string())) };
+                let last_id = manifest.segments.iter().map(|s| s.id).max().unwrap_or(0);
+                let cm = CheckpointManager::with_time_source(Arc::new(store.clone()), PREFIX.to_string(), mm.clone(), CheckpointConfig::default(), clock.clone());
+                match cm.create_checkpoint(state, last_id).await {
+                    Ok(r) => { manifest.compact_segments(CheckpointInfo { key: r.key, timestamp_ms: r.timestamp_ms, key_count: r.key_count, last_segment_id: r.last_segment_id }); let _ = mm.save(&manifest).await; }
+                    Err(e) => return Some(("C11/large-value/checkpoint-error".to_string(), format!("a {}-byte value could not be checkpointed: {}", size, e))),
+                }
+            }
+            let rm = RecoveryManager::new(store.clone(), PREFIX, 1);
+            match rm.recover().await {
+                Ok(r) => { let got = fold_impl(r.checkpoint_state.as_ref(), r.deltas.iter()); if let Some((k, _, _)) = diff_big(&expected, &got) { return Some(("C11/recover/state-differs".to_string(), format!("a value of {} bytes ({}) persisted in {}: recover() does not return key {} as written", size, if as_hash { "hash field" } else { "string" }, if with_cp { "a checkpoint" } else { "a segment" }, k))); } }
+                Err(e) => return Some(("C11/recover/error".to_string(), format!("store holding a {}-byte value: {}", size, e))),
+            }
+            // WAL alone (nothing flushed): default rotation size of the server (64 MB) or one far above the entry
+            let wal = SimWalStore::new(Seq::default());
+            let rot_size = if size < 30_000_000 { 64 * 1024 * 1024 } else { 4 * size };
+            let mut rot = WalRotator::new(wal.clone(), rot_size).expect("rotator");
+            for d in &deltas { let e = match WalEntry::from_delta(d, d.value.timestamp.time) { Ok(e) => e, Err(e) => return Some(("C11/large-value/wal-entry-refused".to_string(), e.to_string())) }; if let Err(e) = rot.append(&e) { return Some(("C11/large-value/wal-append-refused".to_string(), format!("a {}-byte value was refused by the WAL: {}", size, e))); } }
+            let _ = rot.sync();
+            drop(rot);
+            let rot_r = WalRotator::new(wal.clone(), rot_size).expect("rotator");
+            let mut wal_ds = Vec::new();
+            match rot_r.recover_all_entries() { Ok(es) => { for e in es { if let Ok(d) = e.to_delta() { wal_ds.push(d); } } } Err(e) => return Some(("C11/main-style/error".to_string(), e.to_string())) }
+            let got = fold_impl(None, wal_ds.iter());
+            if let Some((k, _, _)) = diff_big(&expected, &got) { return Some(("C11/main-style/state-differs".to_string(), format!("WAL holding 4 updates, one of them a value of {} bytes: replaying all WAL entries gives {} updates and does not return key {} as written", size, wal_ds.len(), k))); }
+            let empty = SimStore::new();
+            match RecoveryManager::new(empty, PREFIX, 1).recover_with_wal(&rot_r).await {
+                Ok(r) => { let got = fold_impl(r.checkpoint_state.as_ref(), r.deltas.iter()); if let Some((k, _, _)) = diff_big(&expected, &got) { return Some(("C11/recover_with_wal/state-differs".to_string(), format!("WAL holding a value of {} bytes: recover_with_wal() does not return key {} as written", size, k))); } }
+                Err(e) => return Some(("C11/recover_with_wal/error".to_string(), e.to_string())),
+            }
+            // into a node
+            let node = ReplicatedShardedState::with_time_source(repl_config(1), clock.clone());
+            node.apply_recovered_state(None, wal_ds);
+            let snap: BTreeMap<String, ReplicatedValue> = node.snapshot_state().await.into_iter().collect();
+            if let Some((k, _, _)) = diff_big(&expected, &snap) { return Some(("C11/node/state-differs".to_string(), format!("node recovered from a WAL holding a value of {} bytes does not hold key {} as written", size, k))); }
+            None
+        });
+        if let Some((k, m)) = viol { rep.violate(k, m); }
+        rep.evals = 4;
+        rep.nontrivial = true;
+        rep.fingerprint = fnv(0x1b, &[(size % 251) as u8, (size / 1_000_000) as u8, as_hash as u8, with_cp as u8]);
+        rep.sample = Some(json!({"mode": "large value", "bytes": size, "hash_field": as_hash, "checkpoint": with_cp}));
+        rep
+    }
 }
 
 impl Property for C11 {
@@ -113,6 +207,7 @@ impl Property for C11 {
         if src.below(150) == 0 { return crate::props::c08::run_server_lifecycle(src, ctx, "C11"); }
         let mut rep = RunReport::default();
         if src.chance(1, 1500) { return self.run_long_history(src); }
+        if src.chance(1, 4000) { return self.run_large_value(src, ctx.tier); }
         let scfg = StreamCfg { nrep: 1 + src.below(3) as usize, nkeys: 1 + src.below(4) as usize, max_ops: 16, hashes: src.chance(1, 2), type_changes: false, deletes: true, expiry: src.chance(1, 3) };
         let t0 = 1_700_000_000_000u64;
         let (stream, t_end) = gen_stream(src, &scfg, t0);
